@@ -321,8 +321,13 @@ func (ps *exprParser) unary() (Expr, error) {
 				return nil, fmt.Errorf("expected bound variable name at %d in %q", n.pos, ps.src)
 			}
 			ty := "int"
+			ptr := ""
+			for ps.isOp("*") {
+				ps.next()
+				ptr += "*"
+			}
 			if ps.peek().k == tIdent {
-				ty = ps.next().s
+				ty = ptr + ps.next().s
 				// qualified type pkg.T
 				if ps.isOp(".") {
 					ps.next()
